@@ -951,6 +951,217 @@ def c11(ctx):
 
 
 # ---------------------------------------------------------------------------------------
+# C14 failing sink: model-driven fault enumeration
+
+def scen(items, hs=None):
+    """Build steps from a list of strings (typed) and key names in angle brackets."""
+    steps = []
+    for it in items:
+        if isinstance(it, dict):
+            steps.append(it)
+        elif it.startswith("<") and it.endswith(">") and it[1:-1] in sessions.KEY_BYTES:
+            for b in sessions.KEY_BYTES[it[1:-1]]:
+                st = {"ev": "byte", "b": b}
+                if it == "<enter>" and hs:
+                    st["hs"] = hs
+                steps.append(st)
+        else:
+            for b in it.encode("utf-8"):
+                steps.append({"ev": "byte", "b": b})
+    return steps
+
+
+def c14_scenarios():
+    T = sessions.text_bytes
+    out1 = {"chunks": [{"m": "w", "t": T("one")}]}
+    out2 = {"chunks": [{"m": "wl", "t": T("a\nb")}, {"m": "u", "t": T("tail")}], "p": 2}
+    out3 = {"chunks": [{"m": "f", "t": T("x\n")}, {"m": "w", "t": T("")}], "p": 3}
+    W1 = {"ev": "write", "chunks": [{"m": "w", "t": T("note")}]}
+    W2 = {"ev": "write", "chunks": [{"m": "wl", "t": T("l1\nl2")}, {"m": "w", "t": T("x")}]}
+    P = {"ev": "prompt", "p": 4}
+    S = []
+
+    def add(set_id, cmd, hcap, items, hs=None, prompt=0):
+        S.append({"cfg": {"cmd": cmd, "hcap": hcap, "set": set_id, "prompt": prompt}, "steps": scen(items, hs)})
+
+    add("raw", 8, 16, ["ab", "<left>", "c", "<bs>", "<right>", "d"])
+    add("raw", 3, 16, ["abé", "x", "<left>", "<left>", "y"])
+    add("raw", 8, 16, ["a", "<enter>", "bb", "<enter>", "<up>", "<up>", "<up>", "<down>", "<down>", "<down>"])
+    add("leds", 16, 16, ["g", "<tab>", "e", "<tab>", "<bs>", "<bs>", "<bs>", "<bs>", "<bs>", "ex", "<tab>", "<enter>"])
+    add("mixed", 16, 0, ["  ж", "<tab>", "а", "<left>", "<left>", "<tab>"])
+    add("raw", 16, 16, ["run 1", "<enter>"], out1)
+    add("raw", 16, 16, ["say \"a b\" -x", "<enter>"], out2)
+    add("raw", 16, 4, ["\"q\\\"r\" z", "<left>", "<enter>"], out3, prompt=2)
+    add("raw", 16, 16, ["", "<enter>", "   ", "<enter>"], out1)
+    add("leds", 24, 16, ["help", "<enter>"], out1)
+    add("leds", 24, 16, ["help get-adc", "<enter>"], out1)
+    add("leds", 24, 16, ["get-led --help", "<enter>"], out1)
+    add("leds", 24, 16, ["help nope", "<enter>"], out1)
+    add("grouped", 24, 16, ["help", "<enter>"], out1)
+    add("grouped", 24, 16, ["help hello", "<enter>"], out1)
+    add("grouped", 24, 16, ["help get-led", "<enter>"], out1)
+    add("grouped", 24, 16, ["get-adc -h", "<enter>"], out1)
+    add("grouped", 24, 16, ["help secret", "<enter>"], out1)
+    add("grouped", 24, 16, ["help nope", "<enter>"], out1)
+    add("raw", 8, 16, ["abc", "<left>", "<left>", W1, "x", W2, P, "y"], prompt=2)
+    add("raw", 8, 16, [W2, "a", P, W1], prompt=1)
+    add("tiny", 2, 3, ["a", "<tab>", "<enter>", "<up>", "é", "<down>"], out2)
+    return S
+
+
+FOLLOW_UP = scen(["x", "<enter>", "<up>", "<enter>", "ok", "<enter>"], {"chunks": [{"m": "w", "t": [122]}]})
+
+
+@check("C14")
+def c14(ctx):
+    vh = vlib.build_harness()
+    rng = random.Random(ctx.seed)
+    q = ctx.tier == "quick"
+    # scenario corpus: hand-written kinds + shortest paths chosen by TLC from the composite model + random sessions
+    scenarios = c14_scenarios()
+    mc = mc_cli_scripts(ctx, dict(SMALL, WithApi=True), rng, limit=25 if q else 250)
+    scenarios += [{"cfg": sc["cfg"], "steps": sc["steps"]} for sc in mc if sc["steps"]]
+    prof = {"cmd": [2, 5, 8, 16], "hcap": [0, 4, 16], "sets": ALLSETS, "prompts": [0, 1, 2], "steps": (6, 14),
+            "alphabet": sessions.W1, "hs_out": 0.7, "hs_prompt": 0.3,
+            "w": {"word": 14, "enter": 12, "write": 6, "prompt": 4, "tab": 8, "up": 8, "down": 4, "left": 8, "quote": 4}}
+    scenarios += [{"cfg": sc["cfg"], "steps": sc["steps"]} for sc in sessions.gen_sessions(rng, 15 if q else 300, prof)]
+    for i, sc in enumerate(scenarios):
+        sc["sid"] = i + 1
+    # 1. fault-free run: number of sink operations of every call
+    base_trace = exec_scripts(ctx, vh, scenarios, "c14base", "C14")
+    nops = {}
+    for rec in vlib.read_ndjson(base_trace):
+        if rec.get("ev") != "panic":
+            nops[(rec["sid"], rec["i"])] = rec.get("nops", 0)
+    os.remove(base_trace)
+    # 2. every call, every operation position, once / permanently
+    variants = []
+    sid = 100000
+    npos = 0
+    for sc in scenarios:
+        for i in range(0, len(sc["steps"]) + 1):
+            k_max = nops.get((sc["sid"], i), 0)
+            for k in range(1, k_max + 1):
+                npos += 1
+                for mode in ("once", "perm"):
+                    sid += 1
+                    if i == 0:
+                        cfg = dict(sc["cfg"], fail={"at": k, "mode": mode})
+                        variants.append({"sid": sid, "cfg": cfg, "steps": []})
+                    else:
+                        steps = [dict(st) for st in sc["steps"][:i]]
+                        steps[i - 1]["fail"] = {"at": k, "mode": mode}
+                        variants.append({"sid": sid, "cfg": sc["cfg"], "steps": steps + FOLLOW_UP})
+    ctx.extra["scenarios"] = len(scenarios)
+    ctx.extra["fault_positions"] = npos
+    ctx.extra["faulted_runs"] = len(variants)
+    ctx.sample({"faulted_script": compact_script(variants[len(variants) // 2]), "fail": [st.get("fail") for st in variants[len(variants) // 2]["steps"] if "fail" in st]})
+    validate_cli(ctx, vh, scenarios + variants, "C14", "c14", shards=12)
+    return ctx.finish("fault enumeration driven by the model: scenario corpus (typing, editing, recall, completion, Enter with handler "
+                      "output, help in plain and grouped sets, Cli::write, set_prompt; shortest paths chosen by TLC from MC_Cli; random "
+                      "sessions); every sink operation of every call failed once and permanently, followed by further input with a "
+                      "working sink; each faulted run validated by TLC: err iff a fault fired, line = old / new / empty, later "
+                      "dispatches as specified", level="model_checking")
+
+
+# ---------------------------------------------------------------------------------------
+# C16 feature combinations
+
+def feature_subsets():
+    fs = vlib.ALL_FEATURES
+    out = []
+    for m in range(8):
+        out.append(tuple(f for i, f in enumerate(fs) if m & (1 << i)))
+    return sorted(out, key=lambda t: -len(t))
+
+
+def strip_cfg(line):
+    rec = json.loads(line)
+    if "cfg" in rec:
+        for k in ("hist", "ac", "help"):
+            rec["cfg"].pop(k, None)
+    return rec
+
+
+@check("C16")
+def c16(ctx):
+    rng = random.Random(ctx.seed)
+    q = ctx.tier == "quick"
+    builds = {}
+    for fs in feature_subsets():
+        try:
+            builds[fs] = vlib.build_harness(features=fs)
+        except vlib.ToolError as e:
+            if fs == tuple(vlib.ALL_FEATURES):
+                raise
+            # the library must build under every feature combination
+            ctx.violation({"kind": "build", "conjunct": "builds under every feature combination", "input": list(fs)},
+                          {"kind": "build", "features": list(fs), "output": str(e)[-3000:]})
+    ctx.extra["feature_sets_built"] = len(builds)
+    base = dict(cmd=SIZES_CMD, hcap=SIZES_HIST, prompts=[0, 1, 2], steps=(10, 60), alphabet=sessions.W1,
+                enter_forms=ENTER_FORMS, hs_out=0.4, hs_prompt=0.2)
+    ungated = dict(base, sets=ALLSETS, w={"up": 0, "down": 0, "tab": 0, "word": 0, "write": 4, "prompt": 3, "enter": 10, "quote": 3, "dash": 3})
+    gated = dict(base, sets=ALLSETS, w={"up": 10, "down": 6, "tab": 10, "word": 16, "write": 3, "prompt": 2, "enter": 10, "dash": 3},
+                 alphabet=sessions.W1 + [0x68, 0x67, 0x65])
+    n_a = 300 if q else 6000
+    n_b = 400 if q else 8000
+    scripts_a = sessions.gen_sessions(rng, n_a, ungated, sid0=1)
+    scripts_b = sessions.gen_sessions(rng, n_b, gated, sid0=100001)
+    # explicit help-shaped lines for every set
+    T = []
+    for set_id in ALLSETS:
+        for line in ["help", "help " + (sessions.SETS[set_id] or ["x"])[0], (sessions.SETS[set_id] or ["x"])[0] + " --help", "x -h", "help -x", "he\t", "h\t\r", "\x1b[A"]:
+            T.append({"cfg": {"cmd": 24, "hcap": 16, "set": set_id, "prompt": 0},
+                      "steps": scen([line.replace("\t", ""), "<tab>" if "\t" in line else "", "<enter>", "<up>", "<enter>"],
+                                    {"chunks": [{"m": "w", "t": [111]}]})})
+    for i, sc in enumerate(T):
+        sc["sid"] = 200001 + i
+        sc["steps"] = [st for st in sc["steps"]]
+    scripts_b += T
+    ref = None
+    full = tuple(vlib.ALL_FEATURES)
+    order = [full] + [fs for fs in builds if fs != full]
+    for fs in order:
+        vh = builds[fs]
+        tag = vlib.feature_tag(fs)
+        # (A) ungated sessions must be identical, record by record, to the all-features build
+        tr = exec_scripts(ctx, vh, scripts_a, "c16a-" + tag, "C16")
+        with open(tr) as f:
+            recs = [strip_cfg(l) for l in f]
+        os.remove(tr)
+        if ref is None:
+            ref = recs
+            # the reference itself is validated by the specification, so that it is not vacuous
+            validate_cli(ctx, vh, scripts_a, "ALL", "c16ref", shards=8)
+        else:
+            ctx.traces += n_a
+            ctx.events += len(recs)
+            def vis(r):
+                # the state of a disabled facility is not part of the comparison
+                if "history" in fs or "st" not in r:
+                    return r
+                r2 = dict(r)
+                r2["st"] = {k: v for k, v in r["st"].items() if k not in ("hist", "nav")}
+                return r2
+            if len(recs) != len(ref) or any(vis(a) != vis(b) for a, b in zip(recs, ref)):
+                idx = next((i for i, (a, b) in enumerate(zip(recs, ref)) if vis(a) != vis(b)), min(len(recs), len(ref)))
+                bad = recs[idx] if idx < len(recs) else None
+                sid = (bad or ref[idx]).get("sid")
+                sc = next((x for x in scripts_a if x["sid"] == sid), None)
+                ctx.violation({"kind": "diff", "conjunct": "behaviour without the disabled facility differs from the all-features build",
+                               "features": list(fs), "input": compact_script(sc) if sc else None},
+                              {"kind": "cli16", "features": list(fs), "script": sc, "record": bad, "reference_record": ref[idx] if idx < len(ref) else None})
+        # (B) gated sessions validated against the specification configured the same way
+        validate_cli(ctx, vh, scripts_b, "C16", "c16b-" + tag, shards=8)
+    ctx.sample({"feature_sets": [list(fs) for fs in builds]})
+    return ctx.finish("eight builds of the harness (features macros + every subset of {history, autocomplete, help}; a failing build is "
+                      "a violation). (A) sessions that use no gated facility, same seeds in every build: recorded results, sink "
+                      "operations, states and handler calls identical to the all-features build record by record (the reference "
+                      "itself validated by TLC). (B) sessions using Up/Down, Tab and help-shaped lines: validated by TLC against Cli "
+                      "with HistoryOn / AutocompleteOn / HelpOn set as in the build")
+
+
+# ---------------------------------------------------------------------------------------
 
 def replay(pid, path):
     """Re-execute a replay file against the current tree and validate again."""
